@@ -359,6 +359,51 @@ func Run(tier string) int {
 			})
 		}
 	}
+	// tag filters of the searched stream and of the streams sub-queries pick, on the same and on different tags:
+	// "tag:a" and "@o:tag:a" are different facts (free atoms of the universe, four states each)
+	{
+		var op []ref.AtomDef
+		for _, spec := range [][3]string{{"tag:a", "", "tag/a"}, {"@o:tag:a", "o", "tag/a"}, {"@p:tag:a", "p", "tag/a"}, {"@o:tag:b", "o", "tag/b"}, {"@o:service:s", "o", "service/s"}, {"tag:b", "", "tag/b"}} {
+			text, sq, tag := spec[0], spec[1], spec[2]
+			key := tag
+			if sq != "" {
+				key = sq + "@" + tag
+			}
+			g := "tagfact " + key
+			var vals []func(*ref.Rec)
+			for _, st := range []ref.TagState{ref.TagMatching, ref.TagFailing, ref.TagUncertainMatching, ref.TagUncertainFailing} {
+				st := st
+				vals = append(vals, func(r *ref.Rec) { r.Tags[key] = st })
+			}
+			groups[g] = &ref.Group{Name: g, Values: vals}
+			a := ref.AtomDef{Atom: &ref.Atom{Text: text, Eval: func(r *ref.Rec) bool {
+				st, ok := r.Tags[key]
+				return ok && (st == ref.TagMatching || st == ref.TagUncertainMatching)
+			}}, Groups: []string{g}, W: 1, C: 1}
+			atomGroups[a.Atom] = a.Groups
+			atomShape[a.Atom] = [2]int{1, 1}
+			op = append(op, a)
+		}
+		for _, a := range alphabet {
+			if a.Text == "cport:80" {
+				op = append(op, a)
+			}
+		}
+		for _, fm := range []struct{ leaves, nots int }{{2, 2}, {3, 2}} {
+			ref.Trees(op, fm.leaves, fm.nots, func(n *ref.Node) {
+				if !n.WellDefined() || n.HasThen() {
+					return
+				}
+				t := n.Text()
+				if seenText[t] || !strings.Contains(t, "@") {
+					return
+				}
+				seenText[t] = true
+				cases = append(cases, caseT{n, t, nil})
+				famCounts["tag filters of the searched stream and of sub-query streams as separate facts"]++
+			})
+		}
+	}
 	uniCache := map[string][]*ref.Rec{}
 	job := mc.ShardedJob{
 		N:        len(cases),
